@@ -17,7 +17,7 @@ Print Assumptions C12_registry_invariant.
    -> instance, or rejects it -> its own error), SuitableVariantNotFound iff there is none, never anything else *)
 Theorem C12_registry : forall acc sites pre i s inp t present,
   nth_error sites i = Some s -> s_field s = true -> site_ok s (length (defs pre)) = true ->
-  assoc (s_fid s) inp = Some t ->          (* the site's key is present in the input and its value is t *)
+  assoc (s_fid s) inp = Some (Hashable t) ->          (* the site's key is present in the input and its value is t *)
   tag_unique (defs pre) s t -> plain_carriers sites (defs pre) s t -> no_keyerror acc (defs pre) s t present ->
   exists o, snd (step acc sites (final acc sites pre) (Decode i inp present)) = Some o
             /\ field_spec acc (defs pre) s t present o.
@@ -27,7 +27,7 @@ Print Assumptions C12_registry.
 (* the full statement has no [no_keyerror] hypothesis; the faithful model violates it: *)
 Definition C12_registry_full : Prop := forall acc sites pre i s inp t present,
   nth_error sites i = Some s -> s_field s = true -> site_ok s (length (defs pre)) = true ->
-  assoc (s_fid s) inp = Some t -> tag_unique (defs pre) s t -> plain_carriers sites (defs pre) s t ->
+  assoc (s_fid s) inp = Some (Hashable t) -> tag_unique (defs pre) s t -> plain_carriers sites (defs pre) s t ->
   exists o, snd (step acc sites (final acc sites pre) (Decode i inp present)) = Some o
             /\ field_spec acc (defs pre) s t present o.
 
@@ -41,7 +41,7 @@ Proof.
   intros F.
   assert (U: tag_unique (defs h_ke) s_ke 1).
   { apply (proj1 (tag_uniqueb_iff (defs h_ke) s_ke 1 (wf_defs h_ke) eq_refl)). reflexivity. }
-  destruct (F acc_req [s_ke] h_ke 0 s_ke [(0, 1)] 1 [kerr_marker] eq_refl eq_refl eq_refl eq_refl U (fun c _ => eq_refl))
+  destruct (F acc_req [s_ke] h_ke 0 s_ke [(0, Hashable 1)] 1 [kerr_marker] eq_refl eq_refl eq_refl eq_refl U (fun c _ => eq_refl))
     as [o [E [_ [_ [N _]]]]].
   vm_compute in E. injection E as <-.
   apply (proj1 N eq_refl 1). split.
@@ -71,6 +71,24 @@ Theorem C12_missing_tag : forall acc sites pre i s inp present,
 Proof. exact missing_tag. Qed.
 Print Assumptions C12_missing_tag.
 
+(* a value under the key that is not hashable (a list, a dict) cannot be anybody's tag: SuitableVariantNotFound, without
+   lookup or refill (/repo db5b89f) *)
+Theorem C12_unhashable_tag : forall acc sites pre i s inp present,
+  nth_error sites i = Some s -> s_field s = true -> site_ok s (length (defs pre)) = true ->
+  assoc (s_fid s) inp = Some Unhashable ->
+  step acc sites (final acc sites pre) (Decode i inp present) = (final acc sites pre, Some ONotFound).
+Proof. exact unhashable_tag. Qed.
+Print Assumptions C12_unhashable_tag.
+
+(* an input that is not a mapping: a field dispatcher answers ValueError "should be a dict instance" (/repo 60866ea),
+   in no-field mode no class accepts it; state untouched *)
+Theorem C12_non_mapping : forall acc sites pre i s,
+  nth_error sites i = Some s -> site_ok s (length (defs pre)) = true ->
+  step acc sites (final acc sites pre) (DecodeBad i)
+  = (final acc sites pre, Some (if s_field s then ONotDict else ONotFound)).
+Proof. exact non_mapping. Qed.
+Print Assumptions C12_non_mapping.
+
 (* ... and only then: if the keys of all field dispatchers are present in the input - whatever their values (falsy ones,
    None as a value) - nothing is reported missing: every state, every site, any depth and mix of nested dispatchers, no
    other hypothesis. *)
@@ -83,7 +101,7 @@ Print Assumptions C12_present_keys_not_missing.
    give the same answer *)
 Theorem C12_history_independent : forall acc sites1 sites2 pre1 pre2 i1 i2 s inp1 inp2 t present,
   nth_error sites1 i1 = Some s -> nth_error sites2 i2 = Some s -> s_field s = true ->
-  assoc (s_fid s) inp1 = Some t -> assoc (s_fid s) inp2 = Some t ->
+  assoc (s_fid s) inp1 = Some (Hashable t) -> assoc (s_fid s) inp2 = Some (Hashable t) ->
   defs pre1 = defs pre2 -> site_ok s (length (defs pre1)) = true -> tag_unique (defs pre1) s t ->
   plain_carriers sites1 (defs pre1) s t -> plain_carriers sites2 (defs pre1) s t ->
   no_keyerror acc (defs pre1) s t present ->
@@ -126,14 +144,14 @@ Print Assumptions C12_tag_unique_decidable.
    defined keeps the first class, a fresh one answers with the last class of the walk. *)
 Definition s_demo : site := Site [0] true false true false false false 0 0.
 Definition h_stale : list op :=
-  [Define [] [] [] [] false; Define [0] [(0, 1)] [] [] false; Decode 0 [(0, 1)] []; Define [0] [(0, 1)] [] [] false].
+  [Define [] [] [] [] false; Define [0] [(0, 1)] [] [] false; Decode 0 [(0, Hashable 1)] []; Define [0] [(0, 1)] [] [] false].
 Definition h_fresh : list op :=
   [Define [] [] [] [] false; Define [0] [(0, 1)] [] [] false; Define [0] [(0, 1)] [] [] false].
 
 Theorem C12_nonunique_order_dependent :
   defs h_stale = defs h_fresh
-  /\ snd (step acc_req [s_demo] (final acc_req [s_demo] h_stale) (Decode 0 [(0, 1)] [])) = Some (OInst 1)
-  /\ snd (step acc_req [s_demo] (final acc_req [s_demo] h_fresh) (Decode 0 [(0, 1)] [])) = Some (OInst 2).
+  /\ snd (step acc_req [s_demo] (final acc_req [s_demo] h_stale) (Decode 0 [(0, Hashable 1)] [])) = Some (OInst 1)
+  /\ snd (step acc_req [s_demo] (final acc_req [s_demo] h_fresh) (Decode 0 [(0, Hashable 1)] [])) = Some (OInst 2).
 Proof. vm_compute. repeat split. Qed.
 Print Assumptions C12_nonunique_order_dependent.
 
@@ -145,8 +163,8 @@ Definition sites_nested : list site :=
 Definition h_nested : list op := [Define [] [] [] [] false; Define [0] [(0, 1)] [] [] false; Define [1] [(0, 2)] [] [] false].
 Theorem C12_class_level_self_excluded :
   carries (defs h_nested) (Site [0] true false true false true false 0 0) 1 1
-  /\ snd (step acc_req sites_nested (final acc_req sites_nested h_nested) (Decode 0 [(0, 1)] [])) = Some ONotFound
-  /\ snd (step acc_req sites_nested (final acc_req sites_nested h_nested) (Decode 0 [(0, 2)] [])) = Some (OInst 2).
+  /\ snd (step acc_req sites_nested (final acc_req sites_nested h_nested) (Decode 0 [(0, Hashable 1)] [])) = Some ONotFound
+  /\ snd (step acc_req sites_nested (final acc_req sites_nested h_nested) (Decode 0 [(0, Hashable 2)] [])) = Some (OInst 2).
 Proof.
   split; [|vm_compute; split; reflexivity].
   split; [|exists (Cls [0] [(0, 1)] [] [] false); split; [reflexivity | left; reflexivity]].
@@ -173,30 +191,30 @@ Definition sites_2key : list site :=
   [Site [0] true false true false true false 0 0; Site [1] true false true false true false 1 0].
 Definition h_2key : list op := [Define [] [] [] [] false; Define [0] [(0, 5)] [] [] false; Define [1] [(1, 7)] [] [] false].
 Theorem C12_nested_missing_key :
-  snd (step acc_req sites_2key (final acc_req sites_2key h_2key) (Decode 0 [(0, 5)] [])) = Some OMissing
-  /\ snd (step acc_req sites_2key (final acc_req sites_2key h_2key) (Decode 0 [(0, 5); (1, 7)] [])) = Some (OInst 2)
-  /\ snd (step acc_req sites_2key (final acc_req sites_2key h_2key) (Decode 0 [(0, 5); (1, 8)] [])) = Some ONotFound
-  /\ snd (step acc_req sites_2key (final acc_req sites_2key h_2key) (Decode 0 [(1, 7)] [])) = Some OMissing.
+  snd (step acc_req sites_2key (final acc_req sites_2key h_2key) (Decode 0 [(0, Hashable 5)] [])) = Some OMissing
+  /\ snd (step acc_req sites_2key (final acc_req sites_2key h_2key) (Decode 0 [(0, Hashable 5); (1, Hashable 7)] [])) = Some (OInst 2)
+  /\ snd (step acc_req sites_2key (final acc_req sites_2key h_2key) (Decode 0 [(0, Hashable 5); (1, Hashable 8)] [])) = Some ONotFound
+  /\ snd (step acc_req sites_2key (final acc_req sites_2key h_2key) (Decode 0 [(1, Hashable 7)] [])) = Some OMissing.
 Proof. vm_compute. repeat split. Qed.
 Print Assumptions C12_nested_missing_key.
 
 (* ---- non-vacuity: the hypotheses of C12_registry hold on a history with a stale registry, a class
    without own tag, a class defined after the first call, and the conclusion pins the late class *)
 Definition h_late : list op :=
-  [Define [] [] [] [] false; Define [0] [(0, 1)] [] [] false; Decode 0 [(0, 1)] []; Decode 0 [(0, 3)] [];
+  [Define [] [] [] [] false; Define [0] [(0, 1)] [] [] false; Decode 0 [(0, Hashable 1)] []; Decode 0 [(0, Hashable 3)] [];
    Define [1] [] [] [] false; Define [2] [(0, 3)] [] [] false].
 
 Example C12_registry_nonvacuous :
   site_ok s_demo (length (defs h_late)) = true
   /\ tag_unique (defs h_late) s_demo 3
-  /\ snd (step acc_req [s_demo] (final acc_req [s_demo] h_late) (Decode 0 [(0, 3)] [])) = Some (OInst 3)
+  /\ snd (step acc_req [s_demo] (final acc_req [s_demo] h_late) (Decode 0 [(0, Hashable 3)] [])) = Some (OInst 3)
   /\ carries (defs h_late) s_demo 3 3
   /\ nth_error (run acc_req [s_demo] h_late) 3 = Some (Some ONotFound).
 Proof.
   split; [reflexivity|]. split.
   - apply (proj1 (C12_tag_unique_decidable h_late s_demo 3 eq_refl)). reflexivity.
   - split; [reflexivity|]. split; [|reflexivity].
-    destruct (C12_registry acc_req [s_demo] h_late 0 s_demo [(0, 3)] 3 [] eq_refl eq_refl eq_refl eq_refl
+    destruct (C12_registry acc_req [s_demo] h_late 0 s_demo [(0, Hashable 3)] 3 [] eq_refl eq_refl eq_refl eq_refl
                 (proj1 (C12_tag_unique_decidable h_late s_demo 3 eq_refl) eq_refl)
                 (fun c _ => eq_refl)) as [o [E S]].
     { intros c _. (* acceptance never raises KeyError here: no class has the hook *)
@@ -214,10 +232,10 @@ Definition h_mf : list op :=
   [Define [] [] [] [] false; Define [] [] [] [] false;
    Define [0] [] [(0, [5]); (1, [6])] [] false; Define [1] [] [(0, [6]); (1, [5])] [] false].
 Example C12_multi_field_nonvacuous :
-  snd (step acc_req sites_mf (final acc_req sites_mf h_mf) (DecodeSeq [(0, [(0, 5)], []); (1, [(1, 5)], [])])) = Some (OMany [2; 3])
-  /\ snd (step acc_req sites_mf (final acc_req sites_mf h_mf) (DecodeSeq [(0, [(0, 5)], []); (1, [(1, 6)], [])])) = Some ONotFound
-  /\ snd (step acc_req sites_mf (final acc_req sites_mf h_mf) (DecodeSeq [(0, [(0, 6)], []); (1, [], [])])) = Some ONotFound
-  /\ snd (step acc_req sites_mf (final acc_req sites_mf h_mf) (DecodeSeq [(0, [(0, 5)], []); (1, [], [])])) = Some OMissing.
+  snd (step acc_req sites_mf (final acc_req sites_mf h_mf) (DecodeSeq [(0, [(0, Hashable 5)], []); (1, [(1, Hashable 5)], [])])) = Some (OMany [2; 3])
+  /\ snd (step acc_req sites_mf (final acc_req sites_mf h_mf) (DecodeSeq [(0, [(0, Hashable 5)], []); (1, [(1, Hashable 6)], [])])) = Some ONotFound
+  /\ snd (step acc_req sites_mf (final acc_req sites_mf h_mf) (DecodeSeq [(0, [(0, Hashable 6)], []); (1, [], [])])) = Some ONotFound
+  /\ snd (step acc_req sites_mf (final acc_req sites_mf h_mf) (DecodeSeq [(0, [(0, Hashable 5)], []); (1, [], [])])) = Some OMissing.
 Proof. vm_compute. repeat split. Qed.
 
 (* mixed nesting, in the model: a no-field class-level dispatcher below a field one and a field one below a no-field
@@ -229,11 +247,11 @@ Definition h_mix : list op :=
   [Define [] [] [] [] false; Define [0] [(0, 1)] [] [] false; Define [1] [] [] [7] false; Define [1] [] [] [8] false;
    Define [1] [] [] [9] false; Define [4] [(0, 2)] [] [] false].
 Example C12_mixed_nesting :
-  snd (step acc_req sites_mix (final acc_req sites_mix h_mix) (Decode 0 [(0, 1)] [8])) = Some (OInst 3)
-  /\ snd (step acc_req sites_mix (final acc_req sites_mix h_mix) (Decode 0 [(0, 1)] [])) = Some ONotFound
-  /\ snd (step acc_req sites_mix (final acc_req sites_mix h_mix) (Decode 1 [(0, 2)] [9])) = Some (OInst 5)
+  snd (step acc_req sites_mix (final acc_req sites_mix h_mix) (Decode 0 [(0, Hashable 1)] [8])) = Some (OInst 3)
+  /\ snd (step acc_req sites_mix (final acc_req sites_mix h_mix) (Decode 0 [(0, Hashable 1)] [])) = Some ONotFound
+  /\ snd (step acc_req sites_mix (final acc_req sites_mix h_mix) (Decode 1 [(0, Hashable 2)] [9])) = Some (OInst 5)
   /\ snd (step acc_req sites_mix (final acc_req sites_mix h_mix) (Decode 1 [] [9])) = Some (OInst 5)
-  /\ snd (step acc_req sites_mix (final acc_req sites_mix h_mix) (Decode 0 [(0, 2)] [])) = Some (ORej 5).
+  /\ snd (step acc_req sites_mix (final acc_req sites_mix h_mix) (Decode 0 [(0, Hashable 2)] [])) = Some (ORej 5).
 Proof. vm_compute. repeat split. Qed.
 
 (* no-field mode: subclass wins over the base although the base accepts too; base only as a last resort *)
